@@ -87,6 +87,54 @@ theorem C15_finding_extern_init_after_static :
     holdsOn (parseUnit wExternInit) (fun gs => objectSymbols true gs == [⟨.named 0, .global, .data, some 4, 4⟩]) = true := by
   decide
 
+/-! ### why `C15_symbols_partial` carries the side condition `symbolsSide`
+
+These are not findings about chibicc: they are units that `Spec.valid` admits although they are not C, and on
+which the full statement fails for that reason alone. -/
+
+/-- `int main(void){ (void)&x; extern int x; }` (main=0, x=1): `refsDeclared` lets the block-scope `extern` count for
+    the whole body; chibicc - like every C compiler - rejects the use before the declaration ("undefined variable"),
+    so there is no output whose symbol table could be compared -/
+def wUseBeforeExtern : List Decl :=
+  [ .func 0 4 false false false (some [.ref (.obj 1), .externObj 1 false intTy]) ]
+
+theorem C15_side_use_before_block_extern :
+    valid wUseBeforeExtern = true ∧ InScope wUseBeforeExtern = true ∧ refsOrdered wUseBeforeExtern [] [] = false ∧
+    (match parseUnit wUseBeforeExtern with | .error (.undeclared (.obj 1)) => true | _ => false) = true := by decide
+
+/-- `int a[]; struct { int x, y; } a[];` (a=0): two tentative definitions that leave the length open and disagree on
+    the element size (not compatible types; gcc: "conflicting types").  The Spec takes the first element size, the
+    completed array of chibicc the last. -/
+def wElemSize : List Decl :=
+  [ .obj 0 false false false ⟨4, 4, true, true⟩ none, .obj 0 false false false ⟨8, 4, true, true⟩ none ]
+
+theorem C15_side_element_size :
+    valid wElemSize = true ∧ InScope wElemSize = true ∧ symbolsSide wElemSize = false ∧ differs false wElemSize = true := by
+  decide
+
+/-- an object type with alignment 0 (no C type has it): the Spec's `objAlign` starts its maximum at 1 -/
+def wAlignZero : List Decl := [ .obj 0 false false false ⟨4, 0, false, false⟩ (some []) ]
+
+theorem C15_side_alignment_zero :
+    valid wAlignZero = true ∧ InScope wAlignZero = true ∧ symbolsSide wAlignZero = false ∧ differs true wAlignZero = true := by
+  decide
+
+/-! ### the narrowed region -/
+
+/-- `static int f(void); static inline int f(void);` (never defined): the C11 class (`localIfNeeded`) differs from
+    the class of the first declaration (`localAlways`), so the unit lies in `flagsFrozenRegion`; but `f` is not
+    defined, the class is never looked at, and the unit is inside the scope of `C15_symbols_partial` -/
+def wFrozenDeclOnly : List Decl := [ .func 0 1 true false false none, .func 0 1 true false true none ]
+
+theorem C15_region_frozen_narrowed :
+    flagsFrozenRegion wFrozenDeclOnly = true ∧ flagsFrozenDefRegion wFrozenDeclOnly = false ∧
+    InScope wFrozenDeclOnly = true ∧ symbolsSide wFrozenDeclOnly = true := by decide
+
+/-- every witness of a known finding of the symbol table lies outside `InScope` -/
+theorem C15_findings_outside_scope :
+    InScope wInlineFrozen = false ∧ InScope wDeadStaticLocal = false ∧ InScope wCompositeSize = false ∧
+    InScope wExternInit = false := by decide
+
 /-! ### consequence for the full statement -/
 
 /-- the full symbol-table statement does not hold: `wInlineFrozen` is a valid unit on which the model's
